@@ -92,8 +92,13 @@ FlowClauses(r) ==
      <<"uncommitted-part-keeps-verifying", ~committed => r.out.k = "ok">>,
      <<"unchanged-inputs", r.out.same>> >>
 
+\* C05 in bulk: many inputs signed with the library's key object and verified by the library; the property
+\* speaks directly - every one of them is accepted (rare signature encodings are found by volume)
+BulkClauses(r) == << <<"every-signed-input-verifies", r.out.rejected = 0 /\ r.out.errors = 0>> >>
+
 Clauses(r) ==
   CASE r.op = "vm.begin" -> <<>>
+    [] r.op = "flow.bulk" -> BulkClauses(r)
     [] r.op = "flow.verify" -> FlowClauses(r)
     [] r.op = "vm.step" -> StepClauses(r)
     [] r.op = "vm.end" -> EndClauses(r)
